@@ -409,7 +409,7 @@ def run_bounded(b, tier, use_cache):
     """run a BOUNDED stand-in against the real code (scratch copy of /repo); returns dict"""
     n = b["thorough"] if tier == "thorough" else b["quick"]
     h = hashlib.sha256()
-    for root, _d, files in sorted(os.walk("/repo/src")):
+    for root, _d, files in sorted(os.walk(os.path.join(os.environ.get("RULER_REPO", "/repo"), "src"))):
         for fn in sorted(files):
             if fn.endswith(".rs"):
                 h.update(fn.encode()); h.update(open(os.path.join(root, fn), "rb").read())
